@@ -184,6 +184,29 @@ impl<'tcx> Ex<'tcx> {
                 }
             }
         } else if let ty::Ref(_, inner, _) = ty.kind() {
+            if let ty::Array(elem, _) = inner.kind() {
+                // byte-string literal behind a reference (`&[u8; N]`): format_args! templates are lowered to
+                // these; export the bytes (lossy) so that rules can see which literal text a message carries
+                if *elem == tcx.types.u8 {
+                    let val = match c.const_ {
+                        mir::Const::Val(cv, _) => Some(cv),
+                        mir::Const::Unevaluated(uv, _) if uv.promoted.is_some() => None,
+                        _ => c.const_.eval(tcx, env, c.span).ok(),
+                    };
+                    if let Some(mir::ConstValue::Scalar(rustc_middle::mir::interpret::Scalar::Ptr(ptr, _))) = val {
+                        let (prov, offset) = ptr.prov_and_relative_offset();
+                        if let rustc_middle::mir::interpret::GlobalAlloc::Memory(alloc) = tcx.global_alloc(prov.alloc_id()) {
+                            let a = alloc.inner();
+                            let start = offset.bytes() as usize;
+                            let end = a.len();
+                            if start <= end {
+                                let bytes = a.inspect_with_uninit_and_ptr_outside_interpreter(start..end);
+                                let _ = write!(s, ",\"bstr\":{}", esc(&String::from_utf8_lossy(bytes)));
+                            }
+                        }
+                    }
+                }
+            }
             if inner.is_str() {
                 // evaluated string constant (literal or named const)
                 let val = match c.const_ {
